@@ -14,20 +14,20 @@ PROPS = {
         'not_decided': 'signs and indices of the multiplier rows, i.e. feasibility itself',
     },
     'C03': {
-        'rules': ['R08', 'R09', 'R01', 'R07', 'R27', 'R29'],
+        'rules': ['R08', 'R09', 'R01', 'R07', 'R27', 'R29', 'R32'],
         'decided': 'per-constraint ambiguity set survives splits; set selection (own, default, '
                    'else raise); shared pro/exp/sup models reset; mix_support consumes every '
                    'cone list of the probability and expectation supports',
         'not_decided': 'the alpha/beta dualisation and its expectations',
     },
     'C04': {
-        'rules': ['R25', 'R07', 'R27'],
+        'rules': ['R25', 'R07', 'R27', 'R32'],
         'decided': 'expectation marker and event partition survive every shape-preserving '
                    'operation; expectation blocks of mix_support keep every cone list',
         'not_decided': 'everything numeric',
     },
     'C06': {
-        'rules': ['R05', 'R06', 'R25', 'R28'],
+        'rules': ['R05', 'R06', 'R25', 'R28', 'R30'],
         'decided': 'every accepted atom / constraint class / objective form has a lowering branch '
                    'in some layer, no shadowed branch, unknown types raise; no constructor field '
                    'of an accepted expression is dropped on the way to its lowering',
@@ -60,18 +60,18 @@ PROPS = {
         'not_decided': 'that each atom\'s base function is convex as labelled',
     },
     'C11': {
-        'rules': ['R19', 'R04', 'R07', 'R17'],
+        'rules': ['R19', 'R04', 'R07', 'R17', 'R30'],
         'decided': 'every interface reads every formula field, translates or warns about every '
                    'cone list, does not edit the formula, reports failure as NaN/None',
         'not_decided': 'numerical agreement of optima, solver status semantics',
     },
     'C12': {
-        'rules': ['R17', 'R18', 'R25', 'R27', 'R06'],
+        'rules': ['R17', 'R18', 'R25', 'R27', 'R06', 'R31'],
         'decided': 'read-back guards; sense applied exactly once each way; evaluator branch laws',
         'not_decided': 'index arithmetic of DecVar.get / rule_var, scenario labelling',
     },
     'C13': {
-        'rules': ['R10', 'R02', 'R25', 'R27'],
+        'rules': ['R10', 'R02', 'R25', 'R27', 'R31'],
         'decided': 'illegal declarations raise; adaptation after rule expansion invalidates or '
                    'raises; partitions combined by comb_set in binary operations and propagated '
                    'by unary ones',
